@@ -28,6 +28,39 @@ def decision_set(f, L):
     return req, preds, tree
 
 
+VALUE_CHANGERS = {"to_lowercase", "to_uppercase", "to_ascii_lowercase", "to_ascii_uppercase", "make_ascii_lowercase", "make_ascii_uppercase", "trim", "trim_start", "trim_end",
+                  "trim_matches", "trim_start_matches", "trim_end_matches", "replace", "replacen", "strip_prefix", "strip_suffix", "split", "rsplit", "split_once", "rsplit_once"}
+
+
+def request_value_changes(f):
+    """case / whitespace / substring transformations applied to a value a Request accessor returned"""
+    out = set()
+    for g in f.all_bodies():
+        pv = None
+        for bi, t, cal in g.calls():
+            if cal is None or cal.local or not t["args"]:
+                continue
+            name = cal.name
+            if name not in VALUE_CHANGERS:
+                # a transformation handed over by name: `request.scheme().map(str::to_ascii_lowercase)`
+                pv = pv or Prov(g, copies=True)
+                items = [pv.operand(x) for x in t["args"][1:]]
+                items = [x[1][1].rsplit("::", 1)[1] for x in items if x[0] == "const" and isinstance(x[1], tuple) and x[1][0] == "fn"]
+                items = [x for x in items if x in VALUE_CHANGERS]
+                if not items:
+                    continue
+                name = items[0]
+            pv = pv or Prov(g, copies=True)
+            a = pv.operand(t["args"][0])
+            if g is not f:
+                from riolib.prov import resolve_captures
+                a = resolve_captures(a, g, copies=True)
+            acc = [x[1] for x in walk(a) if x[0] == "call" and x[1].startswith("http::request::Request::")]
+            for k in acc:
+                out.add("%s(%s)" % (name, k.rsplit("::", 1)[1]))
+    return out
+
+
 def r17_1(ctx, layers):
     def body(r):
         LY.bucket_coverage(ctx.facts, layers, ("trace",), r)
@@ -45,8 +78,10 @@ def r17_2(ctx, layers):
             a, b = decision_set(m, L), decision_set(t, L)
             r.ob("predicates:%s:request-accessors" % L.short, a[0] == b[0], t.site, "match uses %s, trace uses %s" % (sorted(a[0]), sorted(b[0])))
             r.ob("predicates:%s:trigger-predicates" % L.short, a[1] == b[1], t.site, "match uses %s, trace uses %s" % (sorted(a[1]), sorted(b[1])))
+            ca, cb = request_value_changes(m), request_value_changes(t)
+            r.ob("predicates:%s:request-values-as-matched" % L.short, ca == cb, t.site, "what is compared is the request value as matching sees it: match applies %s, trace applies %s" % (sorted(ca), sorted(cb)))
             r.ob("predicates:%s:tree" % L.short, a[2] == b[2], t.site, "regex tree consulted by match: %s, by trace: %s" % (sorted(a[2]), sorted(b[2])))
-    ctx.run_rule("R17.2", "trace uses the same request accessors and trigger predicates as matching", body, floor=21)
+    ctx.run_rule("R17.2", "trace uses the same request accessors and trigger predicates as matching", body, floor=28)
 
 
 def r17_3(ctx, layers):
